@@ -638,3 +638,36 @@ Section Oracles.
         end
     end.
 End Oracles.
+
+(** * Declarative notions used by the theorems and by the monitor *)
+Section Spec.
+  Variable verify_sig : pubkey -> bytes -> pcommit -> nat -> bool.
+
+  Fixpoint number_from {A} (i : nat) (l : list A) : list (nat * A) :=
+    match l with [] => [] | x :: t => (i, x) :: number_from (S i) t end.
+
+  (** commit signature [i] is a valid signature FOR THE BLOCK by key [pk] *)
+  Definition signs (chain : bytes) (c : pcommit) (pk : pubkey) (is : nat * commit_sig) : bool :=
+    for_block (snd is) && verify_sig pk chain c (fst is).
+
+  (** voting power of the header's own validators that signed: validator [i]
+      counts when commit signature [i] is a valid block signature under its key *)
+  Fixpoint signed_own_from (chain : bytes) (c : pcommit) (i : nat) (vals : list (pubkey * Z))
+           (sigs : list commit_sig) : Z :=
+    match vals, sigs with
+    | v :: vals', s :: sigs' =>
+        (if signs chain c (fst v) (i, s) then snd v else 0) + signed_own_from chain c (S i) vals' sigs'
+    | _, _ => 0
+    end.
+  Definition signed_own (chain : bytes) (c : pcommit) (vals : list (pubkey * Z)) : Z :=
+    signed_own_from chain c 0 vals (cm_sigs c).
+
+  (** voting power of the trusted validators that signed: a trusted validator
+      counts when SOME commit signature is a valid block signature under its key *)
+  Definition signed_by (chain : bytes) (c : pcommit) (pk : pubkey) : bool :=
+    existsb (signs chain c pk) (number_from 0 (cm_sigs c)).
+  Definition signed_trusted (chain : bytes) (c : pcommit) (tvals : list (pubkey * Z)) : Z :=
+    fold_right (fun v acc => (if signed_by chain c (fst v) then snd v else 0) + acc) 0 tvals.
+
+  Definition total_of (vals : list (pubkey * Z)) : Z := fold_right (fun v acc => snd v + acc) 0 vals.
+End Spec.
